@@ -93,6 +93,10 @@ def to_frac(v):
     f = float(v)
     if not math.isfinite(f):
         return None
+    if f == int(f):
+        # an integral double IS that integer (and prints as it: `f"{int(value)}"`); its shortest repr
+        # (3.9999999999999995e+18) is a different number from 2^53 on
+        return Fraction(int(f))
     return Fraction(repr(f))
 
 
@@ -108,29 +112,43 @@ def close(a, b, rel=1e-9, floor=1.0):
     return abs(fa - fb) <= rel * max(floor, abs(fa), abs(fb))
 
 
-def value_scale(t, env):
-    """largest magnitude among the constants of the tree and the variable values: rounding errors of
-    folded constants are relative to it (capped at 1.0, the default floor of `close`)"""
+def magnitude(t, env):
+    """largest magnitude among the values of ALL subterms of the tree at this assignment (leaves included):
+    the rounding error of a float computation is relative to the intermediate values, not to the final one
+    (4e18 + x - 4e18 carries an absolute error of hundreds).  Subterms without a value are skipped."""
     m = 0.0
     stack = [t]
+    n = 0
     while stack:
         x = stack.pop()
-        if x[0] == "C":
-            try:
-                m = max(m, abs(float(x[2])))
-            except (TypeError, ValueError, OverflowError):
-                return 1.0
-        elif x[0] == "V":
-            v = env.get(x[2])
-            try:
+        n += 1
+        if n > 400:
+            break
+        try:
+            v = q_eval(x, env)
+            if isinstance(v, Fraction):
                 m = max(m, abs(float(v)))
-            except (TypeError, ValueError, OverflowError):
-                return 1.0
-        else:
+        except Exception:  # noqa
+            pass
+        if x[0] in ("U", "B"):
             stack += [c for c in x[3:] if isinstance(c, tuple)]
-        if m >= 1.0:
-            return 1.0
     return max(m, 1e-300)
+
+
+def close_at(a, b, scale, rel=1e-9):
+    """equality up to the floating-point rounding of folded constants: relative `rel` to the values compared,
+    or absolute 1e-12 times the largest intermediate magnitude (`scale`: a number, or a function computing it
+    — only called when the relative test fails)"""
+    if a is None or b is None:
+        return a is None and b is None
+    if a == b:
+        return True
+    fa, fb = float(a), float(b)
+    d = abs(fa - fb)
+    if d <= rel * max(abs(fa), abs(fb)):
+        return True
+    sc = scale() if callable(scale) else scale
+    return d <= 1e-12 * sc * (rel / 1e-9)
 
 
 # --------------------------------------------------------------------------- trees
@@ -473,8 +491,14 @@ def refines(before, after, envs=None):
                     if sb[0] == "unequal" and sa[0] not in ("unequal",):
                         return {"env": envs_s, "before": "unequal", "after": str(sa)}
                     continue
-                holds_b = close(sb[1], sb[2])
-                clearly_not_b = not close(sb[1], sb[2], rel=1e-6)
+                _sc = []
+
+                def scale(env=env):
+                    if not _sc:
+                        _sc.append(max(magnitude(before, env), magnitude(after, env)))
+                    return _sc[0]
+                holds_b = close_at(sb[1], sb[2], scale)
+                clearly_not_b = not close_at(sb[1], sb[2], scale, rel=1e-6)
                 if sa[0] != "ok":
                     if holds_b or (clearly_not_b and sa[0] != "unequal"):
                         # a holding equation became undefined / a failing one stopped failing
@@ -483,8 +507,8 @@ def refines(before, after, envs=None):
                         if clearly_not_b:
                             return {"env": envs_s, "before": "does not hold", "after": sa[0]}
                     continue
-                holds_a = close(sa[1], sa[2])
-                clearly_not_a = not close(sa[1], sa[2], rel=1e-6)
+                holds_a = close_at(sa[1], sa[2], scale)
+                clearly_not_a = not close_at(sa[1], sa[2], scale, rel=1e-6)
                 if sb[1] == sb[2] and clearly_not_a:
                     return {"env": envs_s, "before": "holds", "after": f"{sa[1]} != {sa[2]}"}
                 if clearly_not_b and holds_a and sa[1] == sa[2]:
@@ -498,7 +522,8 @@ def refines(before, after, envs=None):
             if is_equation:
                 ok = isinstance(b, Fraction)
             else:
-                ok = isinstance(b, Fraction) and close(a, b, floor=value_scale(before, env))
+                ok = isinstance(b, Fraction) and close_at(
+                    a, b, lambda env=env: max(magnitude(before, env), magnitude(after, env)))
             if not ok:
                 return {"env": envs_s, "before": str(a), "after": str(b)}
         elif a == "unequal":
